@@ -30,8 +30,14 @@ def group_reg(k):
                alt_widths=Const(None), base_endianness=Endianness, reverse_subregs_order=bool, name=Const("G"))
 
 
+def group_reg_alt(k, alt):
+    """Grouped register with an alternative (shorter) width, e.g. a 384-bit ROTKH that may hold a 256-bit hash."""
+    return Obj(Register, width=Const(32 * k), _value=Const(0), reverse=Const(False), sub_regs=ListOf(plain_reg(32), k),
+               alt_widths=Const([alt]), base_endianness=Endianness, reverse_subregs_order=Const(False), name=Const("GA"))
+
+
 ANY_REG = Union[plain_reg(8), plain_reg(16), plain_reg(32), plain_reg(64), rev_reg(8), rev_reg(16), rev_reg(32), rev_reg(64),
-                group_reg(2), group_reg(3)]
+                group_reg(2), group_reg(3), group_reg_alt(4, 64)]
 
 
 def byte_reverse(v, nbytes):
@@ -51,7 +57,7 @@ def view(reg):
     return reverse if reg.reverse_subregs_order else normal
 
 
-@contract("spsdk.utils.registers:Register.get_value", split=2)
+@contract("spsdk.utils.registers:Register.get_value", split=3)
 def _(self: ANY_REG, raw: OneOf(False, True)) -> int:
     returns(view(self) if raw or not self.reverse else byte_reverse(view(self), self.width // 8), label="value-of-view")
     ensures(0 <= result and result < 2 ** self.width, label="in-range")
@@ -59,13 +65,13 @@ def _(self: ANY_REG, raw: OneOf(False, True)) -> int:
     sample_with(lambda rnd: _sample_reg(rnd, with_val=False))
 
 
-@contract("spsdk.utils.registers:Register.set_value", split=2)
+@contract("spsdk.utils.registers:Register.set_value", split=3)
 def _(self: ANY_REG, val: int, raw: OneOf(False, True)):
     raises(SPSDKError, val < 0 or val >= 2 ** self.width, label="rejected-not-truncated")
     ensures(implies(len(self.sub_regs) == 0, self._value == (val if raw or not self.reverse else byte_reverse(val, self.width // 8))),
             label="stored-plain")
     ensures(view(self) == (val if raw or not self.reverse else byte_reverse(val, self.width // 8)), label="stored")
-    modifies(self._value, self.sub_regs[0]._value, self.sub_regs[1]._value, self.sub_regs[2]._value)
+    modifies(self._value, self.sub_regs[0]._value, self.sub_regs[1]._value, self.sub_regs[2]._value, self.sub_regs[3]._value)
     sample_with(lambda rnd: _sample_reg(rnd, with_val=True))
 
 
